@@ -1449,6 +1449,35 @@ where
     dict(id="c20-unbounded-channel-size-from-config", prop="C20", file="src/mirrors.rs", expect="C20-R1",
          what="mirror queue capacity no longer a constant",
          old='''            let (bytes_tx, bytes_rx) = channel::<Bytes>(10);''', new='''            let (bytes_tx, bytes_rx) = channel::<Bytes>(addresses.len() * 1000);'''),
+    dict(id="c20-exit-branch-of-the-checkout-goes-round", prop="C20", file="src/mirrors.rs", expect="C20-R5",
+         what="the exit branch of the wait for a mirror connection continues instead of leaving the loop (D87 again)",
+         old="""                    _ = self.disconnect_rx.recv() => {
+                        info!("Got mirror exit signal, exiting {:?}", address.clone());
+                        break;
+                    }
+
+                    connection = pool.get() => match connection {""", new="""                    _ = self.disconnect_rx.recv() => {
+                        info!("Got mirror exit signal, exiting {:?}", address.clone());
+                        continue;
+                    }
+
+                    connection = pool.get() => match connection {"""),
+    dict(id="c20-back-off-sleep-outside-the-select", prop="C20", file="src/mirrors.rs", expect="C20-R5",
+         what="after a failed checkout the mirror task sleeps a back-off period without listening for the exit signal",
+         old="""                                err,
+                                address.clone()
+                            );
+                            continue;
+                        }
+                    },
+                };""", new="""                                err,
+                                address.clone()
+                            );
+                            tokio::time::sleep(std::time::Duration::from_secs(3600)).await;
+                            continue;
+                        }
+                    },
+                };"""),
     # ------------------------------------------------------------------ C11
     dict(id="c11-inline-client", prop="C11", file="src/main.rs", expect="C11-R1",
          what="client handled inline in the accept loop instead of its own task",
